@@ -138,6 +138,13 @@ def run(ctx):
                 a['orders']['capa'] = [int(v) if abs(v) >= 1 else (1 if v > 0 else -1) for v in a['orders']['capa']]
                 a['orders']['price'] = [v + 0.3 for v in a['orders']['price']]
     specs += ints
+    # the order list as a DataFrame with further, partly empty columns (order reference, comment)
+    frm = gen.gen_many(ctx.seed, n // 3, dict(CFG, kinds={'OrderBook': 4, 'SimpleContract': 2, 'Storage': 1}), 'c20fr_')
+    for sp in frm:
+        for a in sp['assets']:
+            if a['kind'] == 'OrderBook':
+                a['orders_as_frame'] = True
+    specs += frm
     specs = ctx.specs(specs)
     res = C.run_impl('reference', specs)
     parts = C.run_impl('assets', specs)
